@@ -42,9 +42,11 @@ void on_each(FunctionTy&& fn, const Args&...) {
 }
 } // namespace galois
 
-#include "../../repo/libgalois/src/FileGraph.cpp"
-#include "../../repo/libgalois/src/GraphHelpers.cpp"
-#include "../../repo/libgalois/src/Context.cpp"
+#include "../src/FileGraph.cpp"
+#include "../src/GraphHelpers.cpp"
+#include "../src/Context.cpp"
+#include "../src/SimpleLock.cpp"
+#include "../src/PtrLock.cpp"
 
 // ---- harness prelude: one-thread pool, per-thread storage backend, large allocations, timers (see ASSUME)
 namespace galois::substrate {
@@ -75,6 +77,9 @@ thread_local ThreadPool::per_signal ThreadPool::my_box;
 void ThreadPool::runInternal(unsigned) { work(); }
 
 static LAptr vf_large(size_t bytes) {
+#ifdef VF_C11_PAGE // page-rounded like the real allocator, the 2 MB page scaled down to VF_C11_PAGE bytes
+  bytes = (bytes + (VF_C11_PAGE - 1)) / VF_C11_PAGE * VF_C11_PAGE;
+#endif
   return LAptr{bytes ? std::calloc(bytes, 1) : nullptr, internal::largeFreer{bytes}};
 }
 void internal::largeFreer::operator()(void* ptr) const { std::free(ptr); }
@@ -87,7 +92,9 @@ LAptr largeMallocBlocked(size_t bytes, unsigned) { return vf_large(bytes); }
 unsigned galois::runtime::activeThreads = 1;
 unsigned int galois::getActiveThreads() noexcept { return galois::runtime::activeThreads; }
 
-// statistics timers: no clock, no report
+// statistics timers: no clock, no report.  StatTimer's two gstl::Str members stay empty (no allocation), so the
+// power-of-two heap singleton their allocator points to is an empty object.
+galois::runtime::Pow_2_BlockHeap::Pow_2_BlockHeap() noexcept {}
 namespace galois {
 TimeAccumulator::TimeAccumulator() : ltimer(), acc(0) {}
 StatTimer::StatTimer(const char* const, const char* const) : valid_(false) {}
@@ -161,6 +168,16 @@ void make_model(Model& m, unsigned shape) {
   }
   for (unsigned i = 0; i <= MAXE; ++i) m.data[i] = vf_nondet_u32();
 }
+
+// one solver query covers a GROUP of 5 consecutive shapes (the per-query start-up cost dominates otherwise)
+template <typename F>
+inline void for_group(unsigned base, unsigned limit, F f) {
+  for (unsigned i = 0; i < 5; ++i) {
+    unsigned s = base + 5 * vf_param(0) + i;
+    if (s < limit) f(s);
+  }
+}
+#define NOINL __attribute__((noinline))
 
 // the input "file": real FileGraph::fromArrays (version 1, 32-bit destinations), never destroyed
 FileGraph& build_file(const Model& m, bool withData) {
